@@ -97,6 +97,8 @@ C19All(u) ==
     \cup { C19Http(pr, 3, 33434, hr.h) : pr \in {<<"udp", "", FALSE>>, <<"icmp", "", FALSE>>}, hr \in {r \in HostTable : r.h # ""} }
     \cup { C19Scen(pr, 1, 3, 0, hr.h, "host") : pr \in {<<"udp", "", FALSE>>, <<"tcp", "syn", FALSE>>, <<"icmp", "", FALSE>>}, hr \in HostTable \cup Unroutable }
     \cup { C19Http(pr, 3, 33434, hr.h) : pr \in {<<"udp", "", FALSE>>, <<"icmp", "", FALSE>>}, hr \in Unroutable }
+    \* a delay of 0 between probes (the zero value of the library's parameter struct) is an accepted value
+    \cup { [C19Scen(pr, 1, 3, 443, IF pr[3] THEN T6 ELSE T4, "delay0") EXCEPT !.run.delay_ms = 0] : pr \in Protos }
     \* host names: resolution picks the address of the requested family (ipv6 flag), or the request is rejected
     \cup { C19Scen(<<p, "", w6>>, 1, 3, 0, nr.h, "host") : p \in {"udp", "icmp"}, w6 \in BOOLEAN, nr \in NameTable }
     \cup { C19Scen(<<"tcp", "syn", w6>>, 1, 3, 443, nr.h, "host") : w6 \in BOOLEAN, nr \in NameTable }
@@ -134,7 +136,11 @@ C20TeFirst(m) ==
     [C20Scen(m, "ack_nosack", "none", 0) EXCEPT !.id = @ \o "/te_from_target_first", !.label = @ \o "/te_from_target_first",
         !.path = PathOf([t \in 1..4 |-> <<[form |-> "te", from |-> "TARGET", delay_us |-> 500],
                                              [form |-> "ack_nosack", delay_us |-> 9000], [form |-> "synack", delay_us |-> 9000]>>])]
-C20All(u) == { C20TeFirst(m) : m \in TP!Methods } \cup { C20Scen(m, cap, f, 0) : m \in TP!Methods, cap \in TP!Caps, f \in TP!Faults }
+\* the destination lies beyond the last TTL: a SACK-capable target still gets a SACK trace (no destination hop is not "unavailable")
+C20Short(m) ==
+    [C20Scen(m, "sack_ok", "none", 0) EXCEPT !.id = @ \o "/dest_beyond_max_ttl", !.label = @ \o "/dest_beyond_max_ttl",
+        !.path = PathOf([t \in 1..4 |-> <<[form |-> "te", from |-> R4(t), delay_us |-> 1000 * t]>>])]
+C20All(u) == { C20Short(m) : m \in TP!Methods } \cup { C20TeFirst(m) : m \in TP!Methods } \cup { C20Scen(m, cap, f, 0) : m \in TP!Methods, cap \in TP!Caps, f \in TP!Faults }
              \cup { C20Cancel(m, cap, c) : m \in TP!Methods, cap \in TP!Caps, c \in {0, 1, 2500} }
              \cup { C20Scen(m, cap, "none", 2) : m \in TP!Methods, cap \in TP!Caps }
 
@@ -204,7 +210,7 @@ C17Run(pr, via, skip, rdns, sil, sp) ==
     [id |-> "C17/run/" \o pr[1] \o pr[2] \o "/" \o via \o "/" \o (IF skip THEN "skip" ELSE "keep") \o (IF rdns THEN "/rdns" ELSE "") \o "/sil" \o ToString(sil) \o "/sp" \o ToString(sp),
      label |-> "wire/" \o pr[1] \o pr[2] \o "/" \o via \o (IF skip THEN "" ELSE "/keep") \o (IF rdns THEN "/rdns" ELSE "") \o "/sil" \o ToString(sil) \o "/sp" \o ToString(sp),
      kind |-> "run", sack_perm |-> TRUE, isn32 |-> <<4660, 1>>,
-     extra |-> [expect17 |-> [skip |-> skip, rdns |-> rdns, routers |-> RoutersAt(sil), private |-> PrivAt(sil), private_target |-> FALSE]],
+     extra |-> [expect17 |-> [skip |-> skip, rdns |-> rdns, routers |-> RoutersAt(sil), private |-> PrivAt(sil), private_target |-> FALSE, single |-> FALSE]],
      run |-> [Run(pr[1], pr[2], FALSE, 1, 8, 2, 1) EXCEPT !.skip_private = skip, !.reverse_dns = rdns, !.via = via,
                 !.dns = [x \in {"*"} |-> "name-of-hop"],
                 !.query = "target=" \o T4 \o "&protocol=" \o pr[1] \o "&tcp-method=" \o pr[2] \o "&port=443&max-ttl=8&timeout=300&traceroute-queries=2&e2e-queries=1"
@@ -220,7 +226,14 @@ C17Priv(pr, via, skip) ==
                  !.run.query = "target=" \o tgt \o "&protocol=" \o pr[1] \o "&tcp-method=" \o pr[2] \o "&port=443&max-ttl=8&timeout=300&traceroute-queries=2&e2e-queries=1"
                                \o "&skip-private-hops=" \o (IF skip THEN "true" ELSE "false"),
                  !.extra.expect17.private_target = TRUE]
-C17All(u) == { C17Priv(pr, via, sk) : pr \in {<<"icmp", "", FALSE>>, <<"udp", "", FALSE>>}, via \in {"lib", "http"}, sk \in BOOLEAN } \cup { C17Run(pr, via, sk, rd, sil, 1) : pr \in {<<"icmp", "", FALSE>>, <<"udp", "", FALSE>>, <<"tcp", "syn", FALSE>>, <<"tcp", "sack", FALSE>>},
+\* a trace over ONE TTL (max-ttl 1): its only hop is private and is redacted like any other
+C17Single(pr, via, skip) ==
+    LET base == C17Run(pr, via, skip, FALSE, 7, 1) IN
+    [base EXCEPT !.id = @ \o "/single_ttl", !.label = @ \o "/single_ttl", !.run.max_ttl = 1,
+                 !.run.query = "target=" \o T4 \o "&protocol=" \o pr[1] \o "&tcp-method=" \o pr[2] \o "&port=443&max-ttl=1&timeout=300&traceroute-queries=2&e2e-queries=1"
+                               \o "&skip-private-hops=" \o (IF skip THEN "true" ELSE "false"),
+                 !.extra.expect17.single = TRUE]
+C17All(u) == { C17Single(pr, via, sk) : pr \in {<<"icmp", "", FALSE>>, <<"udp", "", FALSE>>, <<"tcp", "syn", FALSE>>}, via \in {"lib", "http"}, sk \in BOOLEAN } \cup { C17Priv(pr, via, sk) : pr \in {<<"icmp", "", FALSE>>, <<"udp", "", FALSE>>}, via \in {"lib", "http"}, sk \in BOOLEAN } \cup { C17Run(pr, via, sk, rd, sil, 1) : pr \in {<<"icmp", "", FALSE>>, <<"udp", "", FALSE>>, <<"tcp", "syn", FALSE>>, <<"tcp", "sack", FALSE>>},
                  via \in {"lib", "http"}, sk \in BOOLEAN, rd \in BOOLEAN, sil \in {2, 7} }
              \cup { C17Run(<<"icmp", "", FALSE>>, "http", sk, rd, 2, sp) : sk \in BOOLEAN, rd \in BOOLEAN, sp \in 2..6 }
 
